@@ -347,6 +347,16 @@ M('F44R', 'src/xdoctest/utils/util_import.py', """                sys.path.pop(r
                 sys.path.pop(real_index)
 """, ['C12'], 'F44 repair reverted: the notice about a changed sys.path is given before the entry is removed')
 M('F45R', 'src/xdoctest/directive.py', """            exists_flag = modname in sys.builtin_module_names""", """            exists_flag = False""", ['C04'], 'F45 repair reverted: REQUIRES(module:sys) is unmet')
+M('F46R', 'src/xdoctest/checker.py', """                try:
+                    got = repr(got_eval)
+                except Exception as ex:
+                    raise ExtractGotReprException('Error calling repr for {}. Caused by: {!r}'.format(type(got_eval), ex), ex)
+                flag = check_output(got, want, runstate)
+                if not flag:
+                    got = got_stdout""", """                got = repr(got_eval)
+                flag = check_output(got, want, runstate)
+                if not flag:
+                    got = got_stdout""", ['C08', 'C09'], 'F46 repair reverted: a raising __repr__ in the eval fallback escapes as an exception of the doctest')
 M('F17R', 'src/xdoctest/doctest_example.py', """                part_directive = None
                 try:
                     try:
